@@ -101,6 +101,8 @@ def skeletons(lang):
     if lang != "C":
         ms = canon.METHOD_STYLES[lang][0]
         sk["class-two-methods"] = [{"k": "class", "name": "K0", "members": [func("m0", s3(), ms, m=True), {"k": "field"}, func("m1", [S("simple"), S("simple")], ms, m=True)]}]
+        if "ctor" in canon.METHOD_STYLES[lang]:
+            sk["class-ctor-first"] = [{"k": "class", "name": "K0", "members": [func("K0x", s3(), "ctor", m=True), func("m1", [S("simple")], ms, m=True), func("K0y", [S("simple")], "ctor", m=True)]}]
         sk["func-global-class"] = [func("f0", [S("simple"), S("simple")]), {"k": "global"},
                                    {"k": "class", "name": "K0", "members": [func("m0", [S("simple")], ms, m=True)]}, func("f1", [S("simple")])]
     if canon.NESTS[lang]:
